@@ -70,8 +70,59 @@ def doc_cases(ctx, n, profile=None, with_mut=True, with_soup=True, opts_fn=None)
     for r in gen.edge_docs(rng, k=max(2, n // 120)):
         cases.append({'src': r.src(), 'opts': dict(gen.gen_options(rng), pack=rng.choice(['*', '*', 'glossaries'])),
                       'multi': rng.random() < 0.2, 'kind': 'edge2', 'words': r.words})
+    cases += sig_cases(rng, max(1, n // 400))
     if with_soup:
         for _ in range(n // 2):
             cases.append({'src': gen.soup(rng), 'opts': (opts_fn or gen.gen_options)(rng), 'multi': rng.random() < 0.2,
                           'kind': 'soup', 'words': None})
     return cases
+
+
+_sig = {}
+def signatures():
+    """(name, args) of every macro and of every environment the implementation knows with all bundled
+    packages loaded: read from the parser object of /repo (argument string: A mandatory, O optional,
+    * star)"""
+    if 'v' in _sig:
+        return _sig['v']
+    m = impl.load()
+    parms = m.parameters.Parameters('en')
+    packages = m.tex2txt.get_packages('*', parms.package_modules)
+    pr = m.parser.Parser(parms, packages, read_macros=None)
+    macs = sorted((k, v.args) for k, v in pr.the_macros.items())
+    envs = sorted((k, v.args) for k, v in pr.the_environments.items())
+    _sig['v'] = (macs, envs)
+    return _sig['v']
+
+def sig_cases(rng, k=1):
+    """G-sig: every known macro / environment called according to its signature, with each argument
+    braced, or given as one unbraced token, optional arguments present or absent, as the very last
+    thing of the text with and without a final line break"""
+    macs, envs = signatures()
+    out = []
+    def arg(kind, style):
+        w = 'Q' + ''.join(rng.choice('abcdefghijklmnopqrstuvwxyz') for _ in range(rng.randint(2, 4)))
+        if kind == 'A':
+            return {'brace': '{%s}' % w, 'bare': ' ' + w[0], 'tok': w[0], 'braceT': '{%s teh.}' % w}[style]
+        if kind == 'O':
+            return rng.choice(['', '[%s]' % w, ''])
+        if kind == '*':
+            return rng.choice(['', '*'])
+        return ''
+    for _ in range(k):
+        for nm, args in macs:
+            if not nm.startswith('\\'):
+                continue
+            for style in ('brace', 'bare', 'tok', 'braceT'):
+                for tail in ('', rng.choice(['\n', ' Qpost.', '\n\nQpost'])):
+                    body = nm + ''.join(arg(a, style) for a in args)
+                    src = rng.choice(['', 'Qpre ', 'Qpre\n\n', '\\begin{itemize}\\item ']) + body + tail
+                    out.append({'src': src, 'opts': {'pack': '*', 'lang': rng.choice(['en', 'de', 'ru'])}, 'multi': rng.random() < 0.15,
+                                'kind': 'sig', 'words': None})
+        for nm, args in envs:
+            for style in ('brace', 'tok'):
+                body = '\\begin{%s}' % nm + ''.join(arg(a, style) for a in args)
+                for tail in ('', rng.choice([' Qin', ' Qin\\end{%s}' % nm, '\\end{%s}' % nm, '\n'])):
+                    out.append({'src': rng.choice(['', 'Qpre ']) + body + tail, 'opts': {'pack': '*', 'lang': rng.choice(['en', 'de'])},
+                                'multi': rng.random() < 0.15, 'kind': 'sig', 'words': None})
+    return out
